@@ -561,3 +561,126 @@ pub fn c08_real_test(_w: &mut (), c: &IdleCase) -> Verdict {
         },
     }
 }
+
+// ------------------------------------------------------------------------------------------
+// C07 with real threads and the real clock: a request pushed while a timed receiver is about to
+// give up must still reach the receiver that stays blocked (corroborates the virtual-time part
+// against std's own condition variable)
+
+#[derive(Clone, Debug, Serialize, Deserialize)]
+pub struct RealEdge {
+    /// timeout of the one-shot timed receiver, ms
+    pub timeout_ms: u64,
+    /// the request is written this many microseconds before the timeout runs out
+    pub before_us: u64,
+    /// the blocking receiver enters recv() this many ms after the timed one
+    pub stagger_ms: u64,
+    pub tcp: bool,
+}
+
+pub fn c07_real_edge_strategy() -> BoxedStrategy<RealEdge> {
+    (prop_oneof![Just(1u64), Just(2u64), Just(20u64), Just(40u64)], prop_oneof![Just(150u64), Just(400u64), Just(700u64), Just(1200u64), Just(3000u64)], 0u64..4, any::<bool>())
+        .prop_map(|(timeout_ms, before_us, stagger_ms, tcp)| RealEdge { timeout_ms, before_us, stagger_ms: stagger_ms.min(timeout_ms / 2), tcp })
+        .boxed()
+}
+
+pub fn c07_real_edge_test(_w: &mut (), c: &RealEdge) -> Verdict {
+    use std::sync::atomic::{AtomicBool, AtomicUsize, Ordering};
+    let dir = format!("{}/target/tmp", vcore::report::verif_root());
+    let _ = std::fs::create_dir_all(&dir);
+    let path = format!("{}/c07edge-{}-{:?}.sock", dir, std::process::id(), std::thread::current().id()).replace(['(', ')'], "");
+    let _ = std::fs::remove_file(&path);
+    let server = if c.tcp { tiny_http::Server::http("127.0.0.1:0") } else { tiny_http::Server::http_unix(std::path::Path::new(&path)) };
+    let Ok(server) = server else { return Verdict::Pass(Good::trivial().class("scenario-not-set-up")) };
+    let server = Arc::new(server);
+    enum Cl {
+        T(std::net::TcpStream),
+        U(std::os::unix::net::UnixStream),
+    }
+    let cl = if c.tcp { std::net::TcpStream::connect(server.server_addr().to_ip().unwrap()).map(Cl::T) } else { std::os::unix::net::UnixStream::connect(&path).map(Cl::U) };
+    let Ok(mut cl) = cl else { return Verdict::Pass(Good::trivial().class("scenario-not-set-up")) };
+    // let the connection reach its worker
+    std::thread::sleep(Duration::from_millis(30));
+    let got = Arc::new(AtomicUsize::new(0));
+    let a_back = Arc::new(AtomicBool::new(false));
+    let a_empty = Arc::new(AtomicBool::new(false));
+    let b_back = Arc::new(AtomicBool::new(false));
+    let answer = |rq: tiny_http::Request| {
+        let _ = rq.respond(tiny_http::Response::from_string("ok"));
+    };
+    let t0 = Instant::now();
+    let timeout = Duration::from_millis(c.timeout_ms);
+    let ta = {
+        let (s, got, a_back, a_empty) = (server.clone(), got.clone(), a_back.clone(), a_empty.clone());
+        std::thread::spawn(move || {
+            match s.recv_timeout(timeout) {
+                Ok(Some(rq)) => {
+                    got.fetch_add(1, Ordering::SeqCst);
+                    answer(rq);
+                }
+                _ => a_empty.store(true, Ordering::SeqCst),
+            }
+            a_back.store(true, Ordering::SeqCst);
+        })
+    };
+    std::thread::sleep(Duration::from_millis(c.stagger_ms));
+    let tb = {
+        let (s, got, b_back) = (server.clone(), got.clone(), b_back.clone());
+        std::thread::spawn(move || {
+            if let Ok(rq) = s.recv() {
+                got.fetch_add(1, Ordering::SeqCst);
+                answer(rq);
+            }
+            b_back.store(true, Ordering::SeqCst);
+        })
+    };
+    // write the request shortly before the timed receiver's timeout runs out
+    let at = timeout.saturating_sub(Duration::from_micros(c.before_us));
+    while t0.elapsed() < at {
+        std::hint::spin_loop();
+    }
+    let rq_bytes = b"GET /edge HTTP/1.1\r\nHost: h\r\n\r\n";
+    let _ = match &mut cl {
+        Cl::T(s) => s.write_all(rq_bytes),
+        Cl::U(s) => s.write_all(rq_bytes),
+    };
+    // the request must reach one of the two receivers
+    let t1 = Instant::now();
+    while got.load(Ordering::SeqCst) == 0 && t1.elapsed() < Duration::from_secs(3) {
+        std::thread::sleep(Duration::from_millis(2));
+    }
+    let delivered = got.load(Ordering::SeqCst) > 0;
+    let mut verdict = None;
+    if !delivered {
+        // is it queued while the blocking receiver is still blocked?
+        let b_blocked = !b_back.load(Ordering::SeqCst);
+        match server.try_recv() {
+            Ok(Some(rq)) if b_blocked => {
+                answer(rq);
+                verdict = Some(fail("C07/real/request-queued-while-a-receiver-stays-blocked", format!("recv_timeout({} ms) came back empty-handed, the request written {} us before its deadline stayed queued for 3 s while another thread was blocked in recv()", c.timeout_ms, c.before_us)));
+            }
+            Ok(Some(rq)) => answer(rq),
+            _ => {}
+        }
+    }
+    // teardown: release the blocking receiver if it is still there
+    if !b_back.load(Ordering::SeqCst) {
+        server.unblock();
+    }
+    let _ = ta.join();
+    let t2 = Instant::now();
+    while !b_back.load(Ordering::SeqCst) && t2.elapsed() < Duration::from_secs(3) {
+        std::thread::sleep(Duration::from_millis(2));
+    }
+    if b_back.load(Ordering::SeqCst) {
+        let _ = tb.join();
+    }
+    drop(cl);
+    drop(server);
+    let _ = std::fs::remove_file(&path);
+    if let Some(v) = verdict {
+        return v;
+    }
+    let edge = a_empty.load(Ordering::SeqCst) && delivered;
+    Verdict::Pass(if edge { Good::nontrivial() } else { Good::trivial() }.class(if c.tcp { "tcp" } else { "unix" }).class_if(edge, "timed-receiver-gave-up-and-the-blocking-one-got-the-request").class_if(!a_empty.load(Ordering::SeqCst), "timed-receiver-got-the-request"))
+}
